@@ -444,6 +444,20 @@ Definition tree_cmux_assign_neg (fam n : Z) (res a s : infos) : tree :=
   (Seq (Scoped (t_glwe_external_product_internal fam n (cmux_tmp_layout res a) s))
        (Loop (nat_of (i_rank res + 1)) (t_big_normalize fam n)))).
 
+(* poulpy-bin-fhe bdd_arithmetic/bdd_2w_to_1w.rs + eval.rs: execute_bdd_circuit_2w_to_1w_multi_thread(threads, out, circuit, a, b, key):
+   one GLWE per output bit (take_glwe_slice(T::BITS, out)), then execute_bdd_circuit_multi_thread on scratch_1: the assertion
+   available() >= threads * per_thread and Scratch::split_mut(threads, per_thread) (per_thread = execute_bdd_circuit_tmp_bytes), the
+   regions go to the worker threads; afterwards FheUint::pack = glwe_pack of the T::BITS bits (log_gap_out = log_n - LOG_BITS) on
+   scratch_1 again.  What a worker does INSIDE its region is tree_bdd_eval_level, run on an arena of its own (the region). *)
+Definition tree_bdd_2w_to_1w_multi_thread (fam n bits threads state_size : Z) (res ggsw key : infos) : tree :=
+  Seq (rep (Z.to_nat bits) (t_take_glwe res))
+  (Seq (Scoped (split_mut threads (execute_bdd_circuit_tmp_bytes fam n res state_size ggsw)))
+       (Scoped (tree_glwe_pack fam n res res key (Z.log2 n) (Z.log2 bits)))).
+(* eval_level(res, inputs, nodes, state_size, scratch): 2 * state_size GLWEs, then one cmux per node on scratch_1 *)
+Definition tree_bdd_eval_level (fam n state_size nodes : Z) (res ggsw : infos) : tree :=
+  Seq (rep (Z.to_nat (2 * state_size)) (t_take_glwe res))
+      (Loop (nat_of nodes) (Scoped (tree_cmux fam n res ggsw))).
+
 (* operations/glwe.rs: glwe_tensor_relinearize(res, a, tsk, tsk_size, scratch); a is the tensor (its layout: base2k, size),
    tsk the prepared tensor key (rank_in = number of pairs), tsk_size the number of limbs of res_dft chosen by the caller *)
 Definition tree_glwe_tensor_relinearize (fam n : Z) (res a tsk : infos) (tsk_size : Z) : tree :=
